@@ -315,6 +315,7 @@ func runAPI(c *tcase, tmpRoot string) (r result) {
 		r.outcome = "refused"
 	default:
 		r.output = nerr.Error()
+		r.restoreReported = strings.Contains(r.output, faultRestore)
 		if inspectErrRe.MatchString(r.output) {
 			// no statement failed, a read of the state did (checked before the markers: the
 			// inspector quotes the CREATE statement, comment included)
@@ -423,10 +424,10 @@ func genRunAPI(tier, tmpRoot string) ([]*tcase, []result) {
 	}
 	empty := startByName("empty")
 	specs := [][][]string{
-		{{"t0", "i0"}, {"t1", "i1", "i2"}},             // succeeds
-		{{"t0"}},                                       // one table
-		{},                                             // nothing to create
-		{{"t0", "i0"}, {"t1", "i0"}},                   // 2nd CREATE INDEX i0 fails (position 3)
+		{{"t0", "i0"}, {"t1", "i1", "i2"}}, // succeeds
+		{{"t0"}},                           // one table
+		{},                                 // nothing to create
+		{{"t0", "i0"}, {"t1", "i0"}},       // 2nd CREATE INDEX i0 fails (position 3)
 		{{"t0", "i0", "i1"}, {"t1", "i2", "i1", "i3"}}, // fails at position 5
 		{{"t0", "i0"}, {"t0", "i1"}},                   // 2nd CREATE TABLE t0 fails (position 2)
 		{{"t0", "i0"}, {"t1"}, {"t2", "t1"}},           // index named like a table fails (position 4)
